@@ -365,7 +365,11 @@ class FileBufferedCollection(BufferedCollection):
                 issues[collection._filename] = err
         # Collections that remain buffered must stay registered even if some
         # files could not be flushed, or they would never be flushed later.
-        cls._buffered_collections = remaining_collections
+        # Collections (of other threads) may have registered themselves while
+        # this flush was running, so the registry is updated in place rather
+        # than replaced.
+        with cls._BUFFER_LOCK:
+            cls._buffered_collections.update(remaining_collections)
         if issues:
             raise BufferedError(issues)
 
